@@ -144,6 +144,13 @@ FOCUS_TEMPLATES = [
      lambda q: ['error', 'XPTY0004'], 'partial-fixed-argument-conversion'),
     ("let $f := function($a, $b as xs:integer) { $b instance of xs:integer } return for $k in %s return $f(?, xs:untypedAtomic(string($k)))(0)",
      lambda q: [['bool', True] for _ in q], 'partial-fixed-argument-conversion'),
+    # fn:apply: an arity error is FOAP0001, an error raised inside the applied function is that error; maps and arrays
+    # are functions of arity one
+    ("for $k in %s return apply(function($x) { $x + 'a' }, [$k])", lambda q: ['error', 'XPTY0004'], 'apply-errors'),
+    ("for $k in %s return apply(function($x as xs:integer) { $x }, [string($k)])", lambda q: ['error', 'XPTY0004'], 'apply-errors'),
+    ("for $k in %s return apply(function($x) { $x }, [$k, $k])", lambda q: ['error', 'FOAP0001'], 'apply-errors'),
+    ("for $k in %s return (function-arity(map{$k: 1, 'z': 2}), function-arity([$k, $k, $k]), apply(map{$k: $k + 1}, [$k]), apply([7, 8, 9], [($k mod 3) + 1]))",
+     lambda q: [y for x in q for y in (['int', '1'], ['int', '1'], ['int', str(x + 1)], ['int', str(7 + x % 3)])], 'apply-errors'),
     # for-each-pair with two lazy operands that depend on the focus (predicates with position()/last(), paths)
     ("for-each-pair(%s[position() ge 1][. ge last() - last()], %s[. ge 0][position() le last()], function($a, $b) { $a * 10 + $b })",
      lambda q: _ints([x * 11 for x in q]), 'for-each-pair-lazy-operands'),
